@@ -159,7 +159,7 @@ func execRace(c RaceCase) kit.Outcome {
 }
 
 func TestFirstSubscribeRace(t *testing.T) {
-	kit.Check(t, kit.Spec[RaceCase]{Sub: "race", Quick: 6, Thorough: 120, NoShrink: true,
+	kit.Check(t, kit.Spec[RaceCase]{Sub: "race", Quick: 6, Thorough: 300, NoShrink: true,
 		Gen: func(t *rapid.T) RaceCase {
 			return RaceCase{Rounds: rapid.SampledFrom([]int{300, 800}).Draw(t, "rounds"), Conns: rapid.IntRange(2, 6).Draw(t, "conns"), Chans: rapid.IntRange(1, 2).Draw(t, "chans")}
 		},
